@@ -366,6 +366,52 @@ def exactness_check(pid: str, part: str) -> int:
                                       "rendered_tree": m_tree[max(0, k - 200):k + 300],
                                       "detail": "Tree/Render.v (the function Lemma A / Lemma B and the script theorems are stated about) no longer lays the statement out like the parser"})
 
+    # ---- T3-render-x: whole statements with expression items at every nesting level (Tree/RenderExpr.v r_stmt_x; the function
+    # c01_exact_on_rendered_core_with_expressions and c02_exact_on_single_select_with_expressions are stated about)
+    if part in ("tables", "columns"):
+        def frag_x(st):
+            def e_ok(e):
+                if e[0] == "col":
+                    return "." not in (e[1] or "")
+                return e[0] in ("lit", "fun", "bin", "case", "cast", "win") and all(e_ok(x) for x in e[1:])
+            def q_(q, top):
+                if q[0] == "select":
+                    return all((i[0] == "star" and "." not in (i[1] or "")) or (i[0] == "expr" and e_ok(i[1])) for i in q[1]) and \
+                        all(rr[0] == "table" or (rr[0] == "derived" and q_(rr[1], False)) for rr in q[2]) and (q[4] is None or q_(q[4][1], False))
+                if q[0] == "union":
+                    return q[1][0] == "select" and q[2][0] == "select" and q_(q[1], False) and q_(q[2], False)
+                return top and q[2][0] != "with" and q[3][0] != "with" and q_(q[2], False) and q_(q[3], False)
+            qq = astgen.stmt_query(st)
+            return qq is not None and q_(qq, True)
+        frx = [st for st in stmts if frag_x(st) and not frag(st)]
+        extra = 0
+        while len(frx) < (80 if quick else 800) and extra < 20000:
+            extra += 1
+            st = astgen.gen_stmt(r, r.choice([0, 1, 2]), False)
+            if frag_x(st) and not frag(st):
+                frx.append(st)
+        rendx = coq_eval("From SV Require Import Tree.RenderExpr Tree.LemmaAExpr.\nOpen Scope string_scope.",
+                         ["(show_render_x %s ++ \"|\" ++ (if stmt_ok_a %s && LemmaAProofs.sshape %s then \"in\" else \"out\"))%%string"
+                          % (astgen.g_stmt(st), astgen.g_stmt(st), astgen.g_stmt(st)) for st in frx], shard=50)
+        dist["render_x_checked"] = 0
+        for st, m in zip(frx, rendx):
+            sql = astgen.to_sql(st, astgen.Opts(kw_case="lower", trailing=""))
+            ck.count()
+            m_tree, _, inside = m.rpartition("|")
+            if inside != "in":
+                continue
+            try:
+                i_tree = show(an._list_specific_statement_segment(sql)[0])
+            except Exception as e:      # noqa
+                i_tree = "ERR:" + type(e).__name__
+            dist["render_x_checked"] += 1
+            ck.nontriv(("render-x", sql))
+            if i_tree != m_tree:
+                k = next((j for j in range(min(len(i_tree), len(m_tree))) if i_tree[j] != m_tree[j]), 0)
+                disagreements.append({"suite": "T3-render-x", "sql": sql, "ast": astgen.g_stmt(st), "parser_tree": i_tree[max(0, k - 200):k + 300],
+                                      "rendered_tree": m_tree[max(0, k - 200):k + 300],
+                                      "detail": "Tree/RenderExpr.v r_stmt_x no longer lays the statement out like the parser"})
+
     # ---- T3-render-expr: Tree/RenderExpr.v lays expression items (functions, arithmetic, CASE, CAST, window; nested) out like
     # the parser does - what connects c02_expression_item_sources / c02_exact_on_single_select_with_expressions_partial to the code
     if part == "columns":
@@ -424,9 +470,8 @@ def exactness_check(pid: str, part: str) -> int:
             disagreements.append({"suite": "tree-wf", "sql": x["rec"]["sql"], "problems": x["wf_problems"][:5]})
 
     # ---- UPDATE / MERGE / SELECT INTO: layout of the renderer, implementation vs specification (C01 lists these kinds) ----
-    if part == "tables":
-        import dmltie
-        dmltie.run(ck, r, quick, spec_failures, disagreements, dist)
+    import dmltie
+    dmltie.run(ck, r, quick, spec_failures, disagreements, dist, part)
 
     # ---- recorded defect classes: replay the witnesses -------------------------------------------------
     from sqllineage.runner import LineageRunner
